@@ -176,6 +176,13 @@ def run(ctx):
             if r.violated:
                 raise Undecided("M1: Oracle.tla violates %s under %s: the specification (design layer) needs attention\n%s" % (r.violated, c, r.out[-2500:]))
             ctx.log("M1 %s: %d generated, %d distinct, depth %d (%.0fs)" % (c, r.generated, r.distinct, r.depth, r.wall))
+            # vacuity: every action must have been taken, except those the configuration switches off
+            text = open(os.path.join(ctx._specdir(), c)).read()
+            off = {a for a, sw in (("Scan", "WithScan = FALSE"), ("Close", "AllowClose = FALSE")) if sw in text}
+            vac = sorted(set(r.coverage_zero) - off)
+            if vac:
+                raise Undecided("M1 %s: actions never taken: %s" % (c, vac))
+            r.coverage_zero = sorted(set(r.coverage_zero) & off)
             out.append((c, r))
         return out
     m1pool = cf.ThreadPoolExecutor(max_workers=1)
@@ -290,7 +297,7 @@ def run(ctx):
                  ("a Commit/Set/Delete reported an error (conflict, too big, blocked, throttled) and later reads / the final dump were checked"
                   if c04 else "a read-write commit overlapped another transaction's commit (answered ok or conflict)")),
         "samples": [{"schedule": scheds[order[0]], "first_events": tl[0][:14]}],
-        "m1": [{"cfg": c, "generated": r.generated, "distinct": r.distinct, "depth": r.depth, "coverage_zero": r.coverage_zero} for c, r in m1],
+        "m1": [{"cfg": c, "generated": r.generated, "distinct": r.distinct, "depth": r.depth, "disabled_by_cfg": r.coverage_zero} for c, r in m1],
         "events_validated": nevents, "conflict_replies": tot[0], "overlapping_ok_commits": tot[1], "error_replies": tot[2],
         "reply_histogram": replies, "rejected_replies": len(rejected), "known_finding_hits": classes,
         "negative_control": "rejected as required (corrupted read reply; commit stored under two versions)",
